@@ -523,6 +523,11 @@ class Check(object):
         if not cond:
             raise AnalysisError(msg)
 
+    def defer(self, msg):
+        """this rule met code outside its fragment: the other rules still run; reported as ANALYSIS-ERROR at the end
+        unless a violation was proved"""
+        self.pending_errors.append(norm_text(msg))
+
     @property
     def violations(self):
         return [o for o in self.obls if o.status == "violated"]
